@@ -22,7 +22,6 @@ def showErr : Err → String
   | .attr => "err:attr"
   | .assert => "err:assert"
   | .zero => "err:zero"
-  | .sqlError => "err:other:Exception"
   | .unmodelled => "unmodelled"
 
 def showVals (l : List Rat) : String := joinSp (l.map fun v => "v" ++ showRat v)
